@@ -761,6 +761,7 @@ func main() {
 	ne2e := flag.Int("ne2e", 8, "number of end-to-end runs")
 	flag.BoolVar(&forceFilter, "forcefilter", false, "every chain case has an exclusion list")
 	flag.BoolVar(&slowFrames, "slowframes", false, "frame-level cases with > 1000 addresses, a big exclusion list and a slow consumer")
+	nwide := flag.Int("wideprefix", 0, "heads of passes over the widest subnets (/0../3) through the real ip generator")
 	nchunkgen := flag.Int("nchunkgen", 0, "replays of the chunk loop on the real tcp/udp request generator (big subnet, > 200 port ranges)")
 	chunkAttempts := flag.Int("chunkattempts", 1, "attempts per chunk loop replay (a data race needs the schedule to cooperate)")
 	nframes := flag.Int("nframes", 0, "chain cases observed on the frames of the real packet source")
@@ -784,6 +785,14 @@ func main() {
 	defer w.Close()
 	if *sx != "" {
 		mainE2E(w, *sx, *seed, *ne2e, *e2eSet)
+		return
+	}
+	if *nwide > 0 {
+		// a stage of its own: own output file, own seed stream
+		for i := 0; i < *nwide; i++ {
+			w.Put(mkWidePrefix(*seed*1000003+int64(i)*7919+17, i))
+			w.Flush()
+		}
 		return
 	}
 	if *one != "" {
